@@ -114,3 +114,26 @@ Theorem c13_new_node_is_source :
                  GBin "+" (GCall "uint64" [GCall "len" [GVar "item.Key"]]) (GCall "uint64" [GCall "item.NumValBytes" [GVar "t"]])])].
 Proof. exact DecTreap.new_node_is_single. Qed.
 Print Assumptions c13_new_node_is_source.
+
+(* the reclaim marks a failed mutation left are cleared wherever they are: unmarkReclaimable walks the whole loaded tree
+   (no early stop at an unmarked node), one lock section per node, released before it descends *)
+From GK Require Import DecMarks.
+Theorem c13_unmark_walks_the_whole_tree_is_source :
+  body "Collection.unmarkReclaimable" =
+    [SIf [] (GCall "nloc.isEmpty" []) [SReturn []] [];
+     SAssign [GVar "n"] ":=" [GCall "nloc.Node" []];
+     SIf [] (GBin "==" (GVar "n") GNil) [SReturn []] [];
+     SExpr (GCall "t.rootLock.Lock" []);
+     SIf [] (GBin "==" (GVar "n.next") (GVar "reclaimMark")) [SAssign [GVar "n.next"] "=" [GNil]] [];
+     SExpr (GCall "t.rootLock.Unlock" []);
+     SExpr (GCall "t.unmarkReclaimable" [GUn "&" (GVar "n.left"); GVar "reclaimMark"]);
+     SExpr (GCall "t.unmarkReclaimable" [GUn "&" (GVar "n.right"); GVar "reclaimMark"])] /\
+  body "Collection.markReclaimable" =
+    [SExpr (GCall "t.rootLock.Lock" []);
+     SDefer (GCall "t.rootLock.Unlock" []);
+     SIf [] (GBin "||" (GBin "||" (GBin "==" (GVar "n") GNil) (GBin "!=" (GVar "n.next") GNil))
+                       (GBin "==" (GVar "n") (GVar "reclaimMark")))
+       [SReturn []] [];
+     SAssign [GVar "n.next"] "=" [GVar "reclaimMark"]].
+Proof. exact DecMarks.unmark_walks_the_whole_tree. Qed.
+Print Assumptions c13_unmark_walks_the_whole_tree_is_source.
